@@ -1441,8 +1441,9 @@ where
     type Err = base32::DecodeError;
 
     fn from_str(s: &str) -> Result<Self, Self::Err> {
-        base32::decode_hex(s)
-            .map(|octets| unsafe { Self::from_octets_unchecked(octets) })
+        let octets: Octs = base32::decode_hex(s)?;
+        // The hash can hold at most 255 octets.
+        Self::from_octets(octets).map_err(|_| base32::DecodeError::ShortBuf)
     }
 }
 
